@@ -161,6 +161,10 @@ def run(cfg, w):
                     outs["two_items_tuple"] = (a[dims[sx[1]].items[0], dims[sx[0]].items[-1]], [l for l in order if l not in sx[:2]])
                     outs["item_and_subset"] = (a[{sx[0]: dims[sx[0]].items[0], sx[-1]: sub}] if sx[0] != sx[-1] else a[{sx[-1]: sub}],
                                                ["u" if l == sx[-1] else l for l in order if l != sx[0] or sx[0] == sx[-1]])
+                if len(sx) >= 3:
+                    # a subset selection on an inner dimension followed by a single item on the last one
+                    sub1 = Dimension(name="SubInner", letter="v", items=dims[sx[1]].items[::-1][: max(1, lens[sx[1]] - 1)])
+                    outs["inner_subset_then_item"] = (a[{sx[1]: sub1, sx[-1]: dims[sx[-1]].items[0]}], ["v" if l == sx[1] else l for l in order if l != sx[-1]])
                 outs["ellipsis"] = (a[...], list(order))
             elif op == "split":
                 parts = a.split(sx[0])
